@@ -168,15 +168,60 @@ def check(prog: Program, tier: str) -> Result:
     _r18_9(prog, res)
     _r18_11(prog, res)
     _r18_12(prog, res)
+    _r18_13(prog, res)
     # R18.10: where a module comes from is a fact about the disk and sys.path NOW
     from . import c05 as _c05
     anchors = [f.key for f in prog.funcs.values() if f.mod.name == "tracing"]
     _c05.adopt_memo_rule(prog, res, "R18.10", anchors,
                          "import normalisation must hold for ANY layout of the imported packages: a memoised lookup answers for the layout of an earlier call "
                          "(another working directory, an edited or moved module), so star-imports are expanded to names the module no longer exports")
-    res.floors.update({"R18.1": 6, "R18.2": 2, "R18.4": 1, "R18.5": 1, "R18.10": 3, "R18.11": 2, "R18.12": 1})
+    res.floors.update({"R18.1": 6, "R18.2": 2, "R18.4": 1, "R18.5": 1, "R18.10": 3, "R18.11": 2, "R18.12": 1, "R18.13": 3})
     res.analysed["importfrom_constructions"] = n
     return res
+
+
+# ------------------------------------------------------------------------------------------------ R18.13
+def _r18_13(prog: Program, res: Result) -> None:
+    """What `from m import *` takes from m (the export model of the tracer, the branch of trace_origin that runs with its export
+    flag on): (a) `__all__` may be written as a list OR a tuple - the template of the assignment accepts both displays;
+    (b) without `__all__`, names with a leading underscore are left out - some return of 'not found' is reached under the
+    export flag and `name.startswith('_')`; (c) only names bound in MODULE scope count - the candidate nodes are reduced by
+    everything inside function and class definitions (a local `helper` inside b.g does not make b export helper)."""
+    from ..pathcond import PathAnalysis, plain
+    fn = prog.func("tracing", "trace_origin")
+    flag = next((p_ for p_ in fn.all_params if "all" in p_.lower()), None)
+    if flag is None:
+        raise AnalysisError("trace_origin: export flag parameter not found")
+    region = [i for i in walk_own(fn.node) if isinstance(i, ast.If) and norm(i.test) == flag]
+    if not region:
+        raise AnalysisError("trace_origin: `if <export flag>:` block not found")
+    blk = region[0]
+    # (a)
+    tmpl = [a for a in ast.walk(blk) if isinstance(a, ast.Call) and (prog.dotted(a.func) or "") == "ast.Assign" and "'__all__'" in norm(a)]
+    ok_a = bool(tmpl) and all("ast.List" in norm(t) and "ast.Tuple" in norm(t) for t in tmpl)
+    res.decide(ok_a, "R18.13", fn.loc(tmpl[0]) if tmpl else fn.loc(blk), fn.fq, "__all__ written as a list or a tuple",
+               "both displays are recognised" if ok_a else
+               "`__all__ = ('y',)` is not recognised: every module-level name of the module counts as exported and a name is attributed to the wrong star import")
+    # (b)
+    pa = PathAnalysis(prog, fn)
+    name_p = fn.posparams[0]
+    ok_b = False
+    for r in ast.walk(blk):
+        if isinstance(r, ast.Return) and (r.value is None or (isinstance(r.value, ast.Constant) and r.value.value is None)):
+            for w in pa.worlds_at(r):
+                if any(f[0] == "lit" and f[2] and "startswith(" in plain(f[1]) and "'_'" in plain(f[1]) and name_p in plain(f[1]) for f in w.facts):
+                    ok_b = True
+    res.decide(ok_b, "R18.13", fn.loc(blk), fn.fq, "underscore names without __all__",
+               "not exported" if ok_b else
+               "for a module without __all__ the leading-underscore rule of `import *` is not applied: `_x` is attributed to a star import that does not provide it")
+    # (c)
+    txt = " ".join(norm(x) for x in blk.body)
+    ok_c = any(isinstance(x, (ast.AugAssign, ast.Assign, ast.Call)) and "FunctionDef" in norm(x) and "ClassDef" in norm(x) and ("-=" in norm(x) or "difference" in norm(x) or " - " in norm(x) or "not in" in norm(x))
+               for x in ast.walk(blk) if isinstance(x, (ast.AugAssign, ast.Assign, ast.Expr)))
+    res.decide(ok_c, "R18.13", fn.loc(blk), fn.fq, "only module-scope bindings are exported",
+               "the candidates inside function and class definitions are taken out" if ok_c else
+               "candidate bindings are collected from the WHOLE tree of the imported module: a local variable, a function-level import or a class attribute named like the "
+               "searched name makes the module look as if it exported it")
 
 
 # ------------------------------------------------------------------------------------------------ R18.12
@@ -570,6 +615,8 @@ def _r18_6(prog: Program, res: Result) -> None:
 from ..selftest import Variant  # noqa: E402
 
 VARIANTS = [
+    Variant("underscore-names-exported-again", "FIRE", "tracing", "        elif name.startswith(\"_\"):\n            return None  # Without __all__, a star import leaves out the names with a leading underscore\n", "", "R18.13"),
+    Variant("all-as-a-list-only", "FIRE", "tracing", "                ast.Tuple(elts={ast.Constant(value=str)}),\n            ),\n        )\n", "            ),\n        )\n", "R18.13"),
     Variant("guarded-imports-hoisted", "FIRE", "fixes",
             "    imports_movable_to_toplevel -= {\n        node\n        for try_node in core.walk(root, ast.Try)\n        for node in core.walk(try_node, (ast.Import, ast.ImportFrom))\n    }\n", "", "R18.12"),
     Variant("guarded-imports-skipped-in-the-loop", "SILENT", "fixes",
